@@ -32,18 +32,23 @@ def monitor(case, outs):
     limit = 65535; rm = None
     flags = {}; held = set(); alive = True
     queued_terminal = False
+    writing = False
     for l, o in zip(case, outs):
         ws = l.split()
         if o == "bad-op": continue
-        if ws[1] == "new": limit = 65535; rm = None; flags = {}; held = set()
+        if ws[1] == "new": limit = 65535; rm = None; flags = {}; held = set(); writing = False
         if ws[1] == "send": flags[int(ws[2])] = int(ws[3])
         if ws[1] == "rm": rm = None if ws[2] == "none" else int(ws[2])
         if ws[1] == "ack": held.discard(int(ws[2]))       # the reply arrived: that exchange is complete
-        resent = (ws[1] == "wdone" and ws[2] == "try_again") or ws[1] == "resend"
+        if ws[1] == "wdone": writing = False
+        # resend() takes the Receive Maximum of the new connection and starts the quota afresh - also when it has nothing to write;
+        # from the read path it does nothing while a write is in progress
+        if (ws[1] == "wdone" and ws[2] == "try_again") or (ws[1] == "resend" and not writing):
+            limit = rm if rm is not None else 65535; held = set()
         for e in ([] if o == "-" else o.split()):
             if e.startswith("w:"):
                 ids = [int(x) for x in e[2:].split(",")]
-                if resent: limit = rm if rm is not None else 65535; held = set(); resent = False
+                writing = True
                 terms = [i for i in ids if flags.get(i, 0) & 4]
                 if terms and len(ids) != 1: return f"terminal request {terms} written together with others: {ids}"
                 for i in ids:
